@@ -83,7 +83,7 @@ MkPlan(id) ==
       szT == [k \in 1..nT |-> IF k = jd /\ c.reg = "payload" THEN PickSeq(SizeBag1, id, 10 + k) ELSE PickSeq(SizeBag, id, 10 + k)]
       szO == [k \in 1..nO |-> PickSeq(SizeBag, id, 20 + k)]
   IN [id |-> id, c |-> c, j |-> j,
-      name |-> StrCat(StrCat(StrCat(c.f, "-"), StrCat(c.d, "-")), StrCat(StrCat(c.tgt, "-"), c.reg)),
+      name |-> StrCat(StrCat(StrCat(c.f, "-"), StrCat(c.d, "-")), StrCat(StrCat(c.tgt, "-"), IF c.f = "hdr" THEN ToString(c.n) ELSE c.reg)),
       sizes |-> IF c.d = "s2c" THEN [s2c |-> szT, c2s |-> szO] ELSE [c2s |-> szT, s2c |-> szO]]
 
 \* --------------------------------------------------------------------- geometry
@@ -114,7 +114,7 @@ TargetPos(step) ==
 \* ------------------------------------------------------------------------ steps
 Step == Len(hist)
 Obs  == [nd |-> <<Len(delivered'["c2s"]), Len(delivered'["s2c"])>>,
-         dd |-> <<dead'["c2s"], dead'["s2c"]>>, hs |-> hs']
+         dd |-> <<dead'["c2s"], dead'["s2c"]>>, ee |-> <<eof'["c2s"], eof'["s2c"]>>, hs |-> hs']
 Log(m) == hist' = Append(hist, m @@ Obs)
 \* the forced continuation once the targeted unit has been written
 FaultMoves ==
